@@ -695,15 +695,22 @@ namespace vh
                         fgp = &h.fg->graph_snapshot(sname);
                     auto sv = s["src"].as_ints();
                     int K = static_cast<int>(s.get_int("K", 0));
+                    // "E": the source in other units, src = sv * 2^E (exact); the results are brought back by the
+                    // same exact factor (and by the grid's own scale) before they are logged as integers
+                    const bool hasE = s.has("E");
+                    const int E = static_cast<int>(s.get_int("E", 0));
                     auto src = grid_array<G, double>(*grid, 0.0);
                     bool uniform = true;
                     for (size_t i = 0; i < n; ++i)
                     {
-                        src.flat(i) = static_cast<double>(sv[i]);
+                        src.flat(i) = std::ldexp(static_cast<double>(sv[i]), E);
                         uniform = uniform && sv[i] == sv[0];
                     }
+                    const double s0 = std::ldexp(static_cast<double>(sv[0]), E);
                     o.str("e", "Accumulate").num("g", g).str("snap", sname).ints("src", sv);
                     o.num("K", K);
+                    if (hasE)
+                        o.num("E", E);
                     std::vector<xt::xarray<double>> res;
                     res.push_back(fgp->accumulate(src));
                     {
@@ -713,9 +720,9 @@ namespace vh
                     }
                     if (uniform)
                     {
-                        res.push_back(fgp->accumulate(static_cast<double>(sv[0])));
+                        res.push_back(fgp->accumulate(s0));
                         auto acc = grid_array<G, double>(*grid, -7.0);
-                        fgp->accumulate(acc, static_cast<double>(sv[0]));
+                        fgp->accumulate(acc, s0);
                         res.push_back(acc);
                     }
                     std::string racc = "[";
@@ -731,7 +738,7 @@ namespace vh
                     std::vector<double> areas(n);
                     for (size_t i = 0; i < n; ++i)
                     {
-                        double a = std::ldexp(res[0].flat(i), K);
+                        double a = std::ldexp(res[0].flat(i), K - E - 2 * dsc);   // grid scale: areas are logged in units of 4^dsc
                         // exact-domain flag: an integer small enough for TLC's 32-bit balance (x 256)
                         ax[i] = (std::isfinite(a) && std::fabs(a) < 2.0e6 && a == std::floor(a));
                         ai[i] = ax[i] ? static_cast<long long>(a) : 0;
@@ -741,6 +748,15 @@ namespace vh
                         ar[i] = arx[i] ? static_cast<long long>(ga) : 0;
                     }
                     o.ints("ai", ai).ints("ax", ax).ints("area", ar).ints("areax", arx);
+                    if (hasE)
+                    {
+                        std::vector<long long> fin(n, 1);
+                        for (auto& rr : res)
+                            for (size_t i = 0; i < n; ++i)
+                                if (!std::isfinite(rr.flat(i)))
+                                    fin[i] = 0;
+                        o.ints("fin", fin);
+                    }
                     {
                         // fixed-point copy (units of 2^-5) for the approximate balance, checked on every
                         // graph whose values are in range (integer areas, |acc| < 4096, unscaled grid)
